@@ -35,6 +35,7 @@ def explore(res, rng, n, exhaustive=None):
         cases += [(h, 0) for h in core.small_histories(*exhaustive)]
     cyc.micro_stream(res, ['rainflow', 'rangepair', 'repeat', 'fourpoint'], rng, max(30, n // 25))
     cyc.extreme_scale_stream(res, ['rainflow', 'rangepair', 'repeat', 'fourpoint'], rng, max(12, n // 60))
+    cyc.narrow_dtype_stream(res, ['rainflow', 'rangepair', 'repeat', 'fourpoint'], rng, max(10, n // 80))
     cyc.caller_array_stream(res, ['rainflow', 'rangepair', 'repeat', 'fourpoint'], rng, max(15, n // 60))
     reqs, meta = [], []
     for idx, (h, s) in enumerate(cases):
